@@ -40,7 +40,11 @@ type HarnessCfg struct {
 	// executes the real code next to the model and asserts agreement, so a native assertion failure
 	// on a path the engine completed is a violation (not a translator mismatch).
 	Differential bool `json:"differential,omitempty"`
-	selftest     bool
+	// SeamPanic: the harness drives an unexported seam with stand-in arguments (a nil connection,
+	// hand-built internal structs): a panic there says that the stand-ins no longer fit the code,
+	// not that the property is violated; it is reported INCONCLUSIVE.
+	SeamPanic bool `json:"seam_panic_inconclusive,omitempty"`
+	selftest  bool
 }
 
 type PropCfg struct {
@@ -543,7 +547,15 @@ func cmdCheck(args []string) int {
 	// depends on the native scheduler (a select with several ready cases) need not reproduce
 	// while another one does
 	byKey := map[string][]int{}
+	seamNoted := map[string]bool{}
 	for i, hv := range viols {
+		if hv.h.SeamPanic && hv.v.Label == "no-panic" {
+			if !seamNoted[hv.h.Name] {
+				seamNoted[hv.h.Name] = true
+				problems = append(problems, fmt.Sprintf("%s: panic while driving an unexported seam with stand-in arguments (%s): the stand-ins no longer fit the code; not a verdict", hv.h.Name, clip(hv.v.Msg, 200)))
+			}
+			continue
+		}
 		key := hv.h.Name + "|" + hv.v.Label + "|" + hv.v.KF
 		byKey[key] = append(byKey[key], i)
 	}
